@@ -59,7 +59,7 @@ def run(ctx: Context) -> None:
     ctx.rule('R04.6', "select_point raises on a miss and selects the native index of the item found", floor=3)
     ctx.rule('R04.7', "cells without usable geometry are None in the polygon array (invalid polygons found over the full array and replaced in place), so the index can never return them (shared with C06 R06.6)", floor=6)
     from .common import adopt_foundations as _adopt
-    _adopt(ctx, 'R04.8', ['geometry', 'order'], floor=60)
+    _adopt(ctx, 'R04.8', ['geometry', 'order', 'topology'], floor=60)
     ctx.assume("GEOS 'intersects' is true for interior and boundary points; STRtree.query is complete and returns positions in the input array, skipping None entries")
 
     impls = p.implementations(base, 'get_index_for_point')
